@@ -131,6 +131,37 @@ theorem isBareFence_false_of_mem (line : Line) (c : Char) (hc : c ∈ line) (hne
     exact ⟨c, hc, by simpa using hne⟩
   simp [this]
 
+/-- `language.contains('`')` is false for a text without backtick -/
+theorem no_backtick_contains (l : Line) (h : ∀ c ∈ l, c ≠ '`') : l.contains '`' = false := by
+  cases hc : l.contains '`' with
+  | false => rfl
+  | true =>
+    exfalso
+    have hm : '`' ∈ l := by simpa using hc
+    exact h _ hm rfl
+
+theorem mem_takeWhile_stop (l rest : Line) : ∀ c ∈ (l ++ '{' :: rest).takeWhile (· ≠ '{'), c ∈ l := by
+  induction l with
+  | nil => intro c hc; simp [List.takeWhile] at hc
+  | cons d l ih =>
+    intro c hc
+    by_cases hd : d = '{'
+    · subst hd; simp [List.takeWhile] at hc
+    · have : decide (d ≠ '{') = true := by simpa using hd
+      simp only [List.cons_append, List.takeWhile_cons, this, if_true, List.mem_cons] at hc
+      rcases hc with h | h
+      · exact h ▸ List.mem_cons_self
+      · exact List.mem_cons_of_mem _ (ih c h)
+
+/-- the text in front of the first `{` of `l ++ '{' :: rest` resp. of `l` holds no backtick if `l`
+holds none -/
+theorem lang_part_no_backtick (l : Line) (h : ∀ c ∈ l, c ≠ '`') (rest : Line) :
+    ((l ++ '{' :: rest).takeWhile (· ≠ '{')).contains '`' = false ∧
+    (l.takeWhile (· ≠ '{')).contains '`' = false := by
+  constructor
+  · exact no_backtick_contains _ (fun c hc => h c (mem_takeWhile_stop l rest c hc))
+  · exact no_backtick_contains _ (fun c hc => h c ((List.takeWhile_sublist _).subset hc))
+
 /-- the fence line without configuration -/
 theorem fence_reread (n : Nat) (hn : 3 ≤ n) (lang : Line) (hl : LangOK lang) :
     fencePure (backticks n ++ lang) = some (backticks n, lang, []) := by
@@ -161,7 +192,9 @@ theorem fence_reread (n : Nat) (hn : 3 ≤ n) (lang : Line) (hl : LangOK lang) :
     rw [scanNone_backticks n [] (c :: r)]
     simp only [List.nil_append, scanNonePure, ne_eq, hc.1, not_false_eq_true, if_true]
     have hlen : ¬ (backticks n).length < 3 := by simp [backticks]; omega
-    simp only [hlen, if_false]
+    have hbt : ((c :: r).takeWhile (· ≠ '{')).contains '`' = false := by
+      exact (lang_part_no_backtick (c :: r) (fun x hx => (hl x hx).1) []).2
+    simp only [hlen, hbt, Bool.false_eq_true, if_false]
     have := scanSome_skip (backticks n) r (fun x hx => (hl x (by simp [hx])).2.1) [c] []
     simp only [List.append_nil] at this
     rw [this]
@@ -180,14 +213,25 @@ theorem fence_reread_config (n : Nat) (hn : 3 ≤ n) (lang : Line) (hl : LangOK 
   cases lang with
   | nil =>
     have hsp : (' ' : Char) ≠ '`' := by decide
+    have hb0 : ((' ' :: '{' :: (cfg ++ ['}'])).takeWhile (· ≠ '{')).contains '`' = false := by
+      have := (lang_part_no_backtick [' '] (by simp) (cfg ++ ['}'])).1
+      simpa using this
     simp only [List.nil_append, scanNonePure, ne_eq, hsp, not_false_eq_true, if_true, hlen, if_false,
-      scanSomePure]
+      hb0, Bool.false_eq_true, scanSomePure]
     rw [trimEnd_braces]
     rfl
   | cons c r =>
     have hc := hl c (by simp)
+    have hb1 : ((c :: (r ++ ' ' :: '{' :: (cfg ++ ['}']))).takeWhile (· ≠ '{')).contains '`' = false := by
+      have := (lang_part_no_backtick (c :: r ++ [' ']) (by
+        intro x hx
+        simp only [List.mem_append, List.mem_singleton] at hx
+        rcases hx with hx | hx
+        · exact (hl x hx).1
+        · subst hx; decide) (cfg ++ ['}'])).1
+      simpa using this
     simp only [List.nil_append, List.cons_append, scanNonePure, ne_eq, hc.1, not_false_eq_true, if_true,
-      hlen, if_false]
+      hlen, if_false, hb1, Bool.false_eq_true]
     have := scanSome_skip (backticks n) r (fun x hx => (hl x (by simp [hx])).2.1) [c]
       (' ' :: '{' :: (cfg ++ ['}']))
     rw [this]
